@@ -553,7 +553,7 @@ def thin_correspondence(ctx, d):
     nmax = ctx.pick(14, 40)
     cases = []
     forms = [lambda n: (n,), lambda n: (n, 1), lambda n: (1, n), lambda n: (n, 1, 1), lambda n: (1, n, 1), lambda n: (1, 1, n)]
-    for i in range(ctx.pick(18, 120)):
+    for i in range(ctx.pick(18, 90)):
         n = rng.choice((2, 3, nmax)) if i % 5 == 0 else rng.randint(2, nmax)
         shape = forms[i % len(forms)](n)
         dim = len(shape)
@@ -811,7 +811,7 @@ def bruteforce(ctx):
     rng = ctx.rng
     small = [(2, 2), (2, 3), (3, 3), (2, 4), (2, 5), (3, 4), (2, 2, 2), (3, 2, 1), (1, 2, 4)]
     cfgs = []
-    for i in range(ctx.pick(5, 30)):
+    for i in range(ctx.pick(5, 20)):
         shape = small[i % len(small)] if i < len(small) else rng.choice(small)
         hs = [rng.choice((0.25, 0.5, 1.0, 2.0, 0.3, 1.3)) for _ in shape]
         m1, m2 = gen_pair(rng, shape, rng.choice(("positive", "compact")))
@@ -864,8 +864,8 @@ def make_cases(ctx):
     thin = [(5,), (9,), (6, 1), (1, 7), (4, 1, 1), (1, 5, 1), (1, 1, 6), (12,), (1, 40), (40, 1)]
     combos = list(itertools.product(("newton", "bregman"), MOB, L1))
     rng.shuffle(combos)
-    n_general = ctx.pick(10, 100)
-    n_thin = ctx.pick(14, 100)
+    n_general = ctx.pick(10, 70)
+    n_thin = ctx.pick(14, 70)
     for i in range(n_general + n_thin):
         is_thin = i >= n_general
         shape = rng.choice(thin if is_thin else general)
@@ -893,7 +893,14 @@ def run(ctx):
         from ..lib.core import REPO
 
         ex = c15.extract((REPO / "src" / "darsia" / "utils" / "quadrature.py").read_text())
-        ctx.write_gen("QuadratureTables", c15.emit(ex, c15.tabulate_corners(d)))
+        # the consumer table (which rule each L1 mode sums over) is part of the same generated file
+        try:
+            l1 = c15.extract_l1((REPO / "src" / "darsia" / "measure" / "wasserstein.py").read_text())
+        except Exception:  # noqa: BLE001 - same fallback as C15: keep the committed consumer table
+            from ..lib.core import LEAN
+
+            l1 = c15.parse_committed_l1((LEAN / "DarsiaGen" / "QuadratureTables.lean").read_text())
+        ctx.write_gen("QuadratureTables", c15.emit(ex, c15.tabulate_corners(d), l1))
         ctx.cov["quadrature_tables"] = "re-extracted from the current source (C15 generator)"
     except Exception as e:  # noqa: BLE001
         ctx.cov["quadrature_tables"] = f"committed table kept ({type(e).__name__}: {str(e)[:120]})"
